@@ -13,6 +13,7 @@ O3  consecutive headers get consecutive frame ids modulo 2**16.
 from checks.common import *  # noqa
 from checks.c04 import new_net
 from specs import frag_spec as FS
+from specs import net_spec as NS
 
 PROPERTY = "C11"
 R = (-(1 << 16), 1 << 17)
@@ -62,7 +63,7 @@ def o1_header(ctx, msg_len, str_type):
     ctx.reached()
 
 
-def o2_fragments(ctx, n, lossy, toggle=False, routed=False):
+def o2_fragments(ctx, n, lossy, toggle=False, routed=False, getters=False, direct=False):
     from circuitpython_nrf24l01.network.structs import RF24NetworkHeader
     clock = fresh_env(ctx)
     radio, net = new_net(clock, 0o1)
@@ -70,6 +71,9 @@ def o2_fragments(ctx, n, lossy, toggle=False, routed=False):
         net.fragmentation = False
         net.fragmentation = True
         ctx.check(net.fragmentation == True, "fragmentation reads back as enabled")  # noqa: E712
+    if getters:  # the application looked at every read-only attribute first
+        from checks.netcommon import touch_getters
+        touch_getters(net)
     total = max(1, (n + 23) // 24)
     fail_at = ctx.int("fail_at", 0, total - 1) if lossy is True else None
     uids = []
@@ -87,17 +91,27 @@ def o2_fragments(ctx, n, lossy, toggle=False, routed=False):
         from checks.netcommon import outage_link
         slow_at = ctx.int("slow_at", 0, total - 1)
         outage_link(ctx, radio, clock, (2, 20, 30, 40, 50, 60, 70, 80, 90, 100, 200, None), only=lambda i: bool(slow_at == i))
-    dst = 0o2 if routed else 0  # routed: via the master, awaiting a NETWORK_ACK that never comes (ack type 65..127)
+    dst = 0o2 if (routed or direct) else 0  # routed: via the master, awaiting a NETWORK_ACK that never comes (ack type 65..127)
     mtype = ctx.int("type", 65, 127) if routed else ctx.int("type", 0, 127)
     msg = ctx.bytes("msg", n)
     h = RF24NetworkHeader(dst, mtype)
     fid = ctx.int("frame_id", 0, 0xFFFF)
     h.frame_id = fid
     sent0 = len(radio.sent)
-    ok = net.send(h, msg)
+    if direct:
+        # write(frame, traffic_direct): the application names the neighbour (the master) that is to route the frame for 0o2; the
+        # frame itself - header and message - is the application's and goes out unchanged, any type, without a NETWORK_ACK wait
+        from circuitpython_nrf24l01.network.structs import RF24NetworkFrame
+        ok = net.write(RF24NetworkFrame(h, msg), 0)
+        ctx.check(not net.available(), "nothing lands in the sender's own queue")
+    else:
+        ok = net.send(h, msg)
     ctx.check(h.message_type == mtype, "after sending, the caller's header shows its original type again")
     ctx.check(s_and(h.from_node == 0o1, h.to_node == dst, h.frame_id == fid), "caller's header keeps origin/destination/id")
     exch = radio.sent[sent0:]
+    if direct:
+        for e in exch:
+            ctx.check(bytes_eq(e["addr"], NS.phys(0, 0, True)), "every frame goes to pipe 0 of the neighbour named as traffic_direct (documented: 'multicast to the first node, routed normally to the next')")
     frames, seen = [], []
     for e in exch:
         if e["uid"] not in seen:
@@ -204,6 +218,9 @@ def jobs(tier):
         out.append(Job("O2-fragments-through-an-outage", o2_fragments, dict(n=n, lossy="outage"), cost=30 + n // 4))
     for n in ((49,) if tier == "quick" else (25, 49, 144)):
         out.append(Job("O2-fragments-routed-without-NETWORK_ACK", o2_fragments, dict(n=n, lossy=False, routed=True), cost=10))
+    for n in ((1, 25, 50) if tier == "quick" else (0, 1, 24, 25, 49, 50, 143, 144)):
+        out.append(Job("O2-fragments-on-air-after-reading-every-getter", o2_fragments, dict(n=n, lossy=False, getters=True), cost=3))
+        out.append(Job("O2-write-with-an-explicit-traffic_direct", o2_fragments, dict(n=n, lossy=False, direct=True), cost=3))
     for n in ((5,) if tier == "quick" else (0, 5, 24)):
         out.append(Job("O4-the-application-keeps-its-frame-object", o4_frame_objects, dict(n=n), cost=4))
     out.append(Job("O3-id-counter", o3_ids, {}))
